@@ -14,8 +14,10 @@ flows and docs), every condition over
     R (truth) ::=  $r.k == S0 | S0 == $r.k | S0 in $r.l | $r.n == 2 | $r.n > 2 | len($r.l) == 2 | $r.d.z == S0 |
                    $r.k | not $r.e | R or R | R and R                     (S0: the three atoms of S)
 
-The reference value of an expression is Python's value of the same text with every `$name` bound to the reference
-value of that variable (a JSON object: attribute access reads the key).  Nothing here imports the library.
+The reference value of an expression is Python's value of the same text with every `$name` OUTSIDE a string literal
+bound to the reference value of that variable (a JSON object: attribute access reads the key); a string literal is a
+constant.  Group `expr-dollar` (dollar_set_exprs, dollar_conds, dollar_result_conds): literals in which a `$` is
+followed by a name.  Nothing here imports the library.
 """
 from __future__ import annotations
 
@@ -137,22 +139,46 @@ def _unwrap(v):
 
 
 _VAR = re.compile(r"\$([a-zA-Z_][a-zA-Z0-9_]*)")
+# a string literal (the literals of these groups contain no quote and no backslash) or a variable reference
+_LIT_OR_VAR = re.compile(r'("[^"]*")|\$([a-zA-Z_][a-zA-Z0-9_]*)')
+_DOLLAR_LIT = re.compile(r'"[^"]*\$[a-zA-Z_][^"]*"')
+
+
+def python_text(text):
+    """-> (the expression as Python text: every variable reference `$name` OUTSIDE a string literal is the name
+    v_name, the string literals are left as they are; names of the variables referred to)"""
+    names = []
+
+    def one(m):
+        if m.group(1) is not None:
+            return m.group(1)
+        names.append(m.group(2))
+        return "v_" + m.group(2)
+
+    return _LIT_OR_VAR.sub(one, text), names
+
+
+def has_dollar_literal(text):
+    """does the expression contain a string literal in which a `$` is followed by a name"""
+    return bool(_DOLLAR_LIT.search(text))
 
 
 def expr_value(text, ctx):
     """Python's value of the expression text, `$name` standing for the reference value of that variable
-    (an unassigned variable is an error, as in an ordinary program)"""
+    (an unassigned variable is an error, as in an ordinary program); a string literal is a constant: its
+    characters are its value, whatever they are"""
+    py, refs = python_text(text)
     names = {}
-    for name in _VAR.findall(text):
+    for name in refs:
         if name not in ctx:
             raise NameError(f"${name} is read before it is assigned")
         names["v_" + name] = _wrap(ctx[name])
-    return _unwrap(eval(compile(_VAR.sub(r"v_\1", text), "<expr>", "eval"), {"__builtins__": {}, "len": len}, names))
+    return _unwrap(eval(compile(py, "<expr>", "eval"), {"__builtins__": {}, "len": len}, names))
 
 
 def top_operator(text):
     """name of the outermost operator of the expression text"""
-    node = ast.parse(_VAR.sub(r"v_\1", text), mode="eval").body
+    node = ast.parse(python_text(text)[0], mode="eval").body
     if isinstance(node, ast.BoolOp):
         return "or" if isinstance(node.op, ast.Or) else "and"
     if isinstance(node, ast.UnaryOp):
@@ -185,6 +211,39 @@ def cond_programs(conds, attr=False):
 def set_programs(exprs):
     """f1: user u0; $c = 0; $s = "a"; $k = <expr>; bot m1   (the value of $k is read from the context the host sees)"""
     return [((("E", "s", f'"{S_VALUE}"'), ("E", "k", e), ("B",)), ()) for e, _ in exprs]
+
+
+# ------------------------------------------------------------------ string literals with a `$` in them
+# (group `expr-dollar`)  $s is an assigned variable of the programs (value "a"), $usd is not a variable of theirs
+D_LITS = ('"$s"', '"b $s"', '"in $usd"')
+# what the action of the `attr` programs of this group returns: a text with a `$` in it
+D_RESULT = {"k": "b $s", "u": "in $usd"}
+
+
+def dollar_set_exprs():
+    """right-hand sides: every literal of D_LITS alone, concatenated with $s on either side, and as the branch of a
+    conditional expression that is taken"""
+    out = []
+    for lit in D_LITS:
+        out += [lit, f"{lit} + $s", f"$s + {lit}", f'{lit} if $c == 0 else "a"']
+    return tuple((t, P_ATOM) for t in out)
+
+
+def dollar_conds():
+    """conditions whose value depends on the characters of a literal of D_LITS (Python's value of the same text)"""
+    out = []
+    for lit in D_LITS:
+        inner = lit[1:-1]
+        at = inner.index("$") + 1  # the same characters as two literals, cut after the `$`
+        out += [f"len({lit}) == {len(inner)}", f'"$" in {lit}', f"$s in {lit}",
+                f'{lit} == "{inner[:at]}" + "{inner[at:]}"']
+    return tuple((t, P_CMP) for t in out)
+
+
+def dollar_result_conds():
+    """conditions that compare a field of the action result D_RESULT with the literal that has the same characters"""
+    return tuple((t, P_CMP) for t in ('$r.k == "b $s"', '"b $s" == $r.k', '$r.u == "in $usd"', '"$usd" in $r.u',
+                                     '$r.k == "b " + $s'))
 
 
 def while_programs(conds):
